@@ -4,7 +4,8 @@
    over SEVERAL generations: versions of different sizes, temporary files left behind by interrupted saves, memory that
    is partly only loaded after a restart); deviation configurations (write in place, ignore the write error, rename
    before the data is written, unlink the old file first, Stat instead of Lstat, temporary file opened without
-   truncation, a save that serializes only what was touched in this process) MUST each violate their invariant, five
+   truncation, a save that serializes only what was touched in this process, a failed read of the cache file taken for
+   an empty cache) MUST each violate their invariant, six
    reachability configurations MUST be reachable -- the predicates can see the bug classes and the situations exist
 2. drivers on the REAL code (harness/cmd/persistdrv):
    a. round trip: L2 request histories of both policies on a real resource manager; after EVERY request the cache is
@@ -20,6 +21,8 @@
       is read from it; the directory is re-opened and compared with it (rt2)
    f. a save after an interrupted save: restart on what a fault run left (temporary file included) or on a synthetic
       leftover, one shrinking / growing mutation that saves once, reload (crash2)
+   g. load faults: a start-up (NewCache, then Save) in a child under strace whose openat / read of the intact cache file
+      returns EIO / EACCES / EMFILE; then a fault-free NewCache on the directory (loadfault)
 3. TLC evaluates the predicates of PersistPreds on the records (Trace_Persist); verdict from real-code records only.
 """
 import concurrent.futures as cf
@@ -40,8 +43,11 @@ DEVIATIONS = [("inplace", "inplace", "Inv_FileIsCompleteSnapshot", 0), ("ignore_
               ("early_rename", "early_rename", "Inv_FileIsCompleteSnapshot", 0), ("unlink_first", "unlink_first", "Inv_FileIsCompleteSnapshot", 0),
               ("stat_follows_symlink", "stat_follows_symlink", "Inv_RefuseUnsafePath", 0),
               ("no_trunc", "no_trunc", "Inv_FileIsCompleteSnapshot", 0), ("no_trunc_load", "no_trunc", "Inv_LoadsWithoutError", 1),
-              ("drop_untouched", "drop_untouched", "Act_ReloadEqualsLastSave", 2)]
-REACH = ["Reach_TornTmpAfterCrash", "Reach_NewAfterCrashInSave", "Reach_Refused", "Reach_SaveOverLongerLeftover", "Reach_SaveWhileUntouched"]
+              ("drop_untouched", "drop_untouched", "Act_ReloadEqualsLastSave", 2),
+              ("swallow_read_error", "swallow_read_error", "Act_ReloadEqualsLastSave", 1)]
+REACH = ["Reach_TornTmpAfterCrash", "Reach_NewAfterCrashInSave", "Reach_Refused", "Reach_SaveOverLongerLeftover", "Reach_SaveWhileUntouched",
+         "Reach_ReadError"]
+LOADSNAPS = (6, 16)   # snapshots whose start-up is run with read faults on the cache file (quick, thorough)
 STATE_NAMES = {"-1": "creating", "0": "unknown", "1": "created", "2": "paused", "3": "running", "4": "exited", "5": "stale"}
 GEN2 = (2, 2)   # a second generation for every n-th L2 round trip (quick, thorough); every decorated one gets it
 AFF = "resource-policy.nri.io/affinity"
@@ -82,7 +88,7 @@ def design_check(ctx):
         if r["violated"] != want:
             raise vlib.Inconclusive("design configuration %s: expected TLC to violate %s, got violated=%s error=%s\n%s" % (
                 name, want, r["violated"], r["error"], r["out"][-2000:]))
-        nrestart = r["out"].count("<Restart line")
+        nrestart = r["out"].count("<Restart")     # Restart and RestartReadFail steps
         if nrestart < restarts:
             raise vlib.Inconclusive("design configuration %s: the counterexample has %d restarts, expected a history over >= %d" % (name, nrestart, restarts))
         summary[name] = {"violates": want, "after_states": r["distinct"], "restarts_in_counterexample": nrestart}
@@ -220,6 +226,13 @@ def reduce_record(i, e):
         r["diff"] = e.get("diff") or []
     elif ev == "leftover_obs":
         r = {"ev": ev, "what": e.get("what", "")}
+    elif ev == "loadplan":
+        r = {"ev": ev, "snap": e["snap"], "points": e.get("points") or []}
+    elif ev == "loadfault":
+        r = {k: e.get(k) for k in ("ev", "snap", "point", "sys", "errno", "fired", "matched", "started", "started_equal", "after_loaded",
+                                   "after_equal", "after_empty")}
+        r["child"] = ascii_(e.get("child", "").replace("\n", " | "))
+        r["loaderr"] = ascii_(e.get("loaderr", ""))
     elif ev == "crash":
         r = {k: e.get(k) for k in ("ev", "snap", "variant", "point", "kind", "sys", "loaded", "eq_old", "eq_new", "fired", "matched", "save_reported")}
         r["loaderr"] = ascii_(e.get("loaderr", ""))
@@ -288,6 +301,7 @@ def stats(recs):
           "leftover_tmp": 0, "max_bytes": 0,
           "rt2": 0, "rt2_by": {}, "rt2_untouched": {}, "rt2_gen3": 0, "rt2_done": {}, "rt2_unequal": 0, "rt2_max_untouched": 0,
           "crash2": 0, "crash2_shorter": 0, "crash2_longer": 0, "crash2_real_shorter": 0, "crash2_real": 0, "crash2_what": {}, "crash2_done": {},
+          "loadplans": 0, "loadfault": 0, "load_fired": {}, "load_outcomes": {}, "load_cases": set(),
           "rt2_cases": set(), "crash2_cases": set(), "crash2_bad": 0, "crash2_no_snapshot_api": 0, "crash2_max_excess": 0, "obs": {}}
     for e in recs:
         ev = e["ev"]
@@ -352,6 +366,24 @@ def stats(recs):
             st["crash2_done"][e.get("done", "")] = st["crash2_done"].get(e.get("done", ""), 0) + 1
             st["crash2_no_snapshot_api"] += 1 if e.get("snap_bytes", -1) < 0 else 0
             st["crash2_bad"] += 0 if (e.get("loaded") and not e.get("diff") and e.get("bytes_equal") and not e.get("tmp_left")) else 1
+        elif ev == "loadplan":
+            st["loadplans"] += 1
+            if e.get("error"):
+                st["plan_errors"].append(e["error"][:300])
+            elif not e.get("control_hash_equal"):
+                st["plan_errors"].append("fault-free start-up in the child does not show the snapshot's projection (%s)" % e["snap"])
+        elif ev == "loadfault":
+            st["loadfault"] += 1
+            if e.get("harness_error"):
+                st["harness_errors"].append(e["harness_error"][:200])
+            if not (e.get("fired") and e.get("matched")):
+                st["crash_unfired"] += 1
+                continue
+            k = "%s:%s" % (e["role"] if e["role"] == "open" else e["role"], e["errno"])
+            st["load_fired"][k] = st["load_fired"].get(k, 0) + 1
+            oc = ("started" if e["started"] else "refused") + ("; snapshot intact" if e["after_loaded"] and e["after_equal"] else "; SNAPSHOT LOST")
+            st["load_outcomes"][oc] = st["load_outcomes"].get(oc, 0) + 1
+            st["load_cases"].add((e["snap"], e["sys"], e["ord"], e["errno"]))
         elif ev == "leftover_obs":
             k = "%s: save %s%s; temp path then %s; cache path then %s; next start %s%s" % (
                 e["what"], e.get("save", "not tried").split(":")[0], " (blocked until a reader appeared)" if e.get("save_blocked") else "",
@@ -459,6 +491,10 @@ def vacuity(st, q):
             missing.append("synthetic leftover " + w)
     if not any(k.startswith(("kill@", "torn-kill@")) for k in st["crash2_what"]) or not any(k.startswith("error@") for k in st["crash2_what"]):
         missing.append("leftovers of a killed and of a failed save")
+    nl = 4 if q else 10
+    for k in ("open:EIO", "open:EACCES", "open:EMFILE", "read1:EIO"):
+        if st["load_fired"].get(k, 0) < nl:
+            missing.append("load faults fired on the cache file (%s): %d < %d" % (k, st["load_fired"].get(k, 0), nl))
     for m in ("delbig", "delpod", "trim", "insertpod", "bigentry"):
         if not st["crash2_done"].get(m):
             missing.append("mutation after a leftover: " + m)
@@ -514,7 +550,8 @@ def run(ctx):
         json.dump([{"name": s["name"], "dir": s["dir"], "variant": variants[s["name"]]} for s in snaps], open(lp, "w"))
         tp = ctx.path("crash", "trace.ndjson")
         rc, out = vlib.sh([binp, "crash", "--snaps", lp, "--out", tp, "--work", sub("crash", "work"), "--self", binp,
-                           "--workers", str(vlib.NCPU), "--torn", "2" if q else "12", "--seed", str(ctx.seed)], timeout=600 if q else 3000)
+                           "--workers", str(vlib.NCPU), "--torn", "2" if q else "12", "--seed", str(ctx.seed),
+                           "--loadsnaps", str(LOADSNAPS[0 if q else 1])], timeout=600 if q else 3000)
         if rc != 0:
             raise vlib.Inconclusive("persistdrv crash failed rc=%s: %s" % (rc, out[-2000:]))
         recs += vlib.read_ndjson(tp)
@@ -567,20 +604,21 @@ def run(ctx):
 
     samples = [e for e in recs if e["ev"] == "rt" and e["origin"] == "decor"][:1] + [e for e in recs if e["ev"] == "plan"][:1] + \
               [e for e in recs if e["ev"] == "crash" and e["kind"] == "kill"][:2] + [e for e in recs if e["ev"] == "unsafe" and e["kind"] == "symlink"][:1] + \
-              [e for e in recs if e["ev"] == "rt2" and e.get("entries_untouched")][:1] + [e for e in recs if e["ev"] == "crash2" and e.get("shorter")][:1]
+              [e for e in recs if e["ev"] == "rt2" and e.get("entries_untouched")][:1] + [e for e in recs if e["ev"] == "crash2" and e.get("shorter")][:1] + \
+              [e for e in recs if e["ev"] == "loadfault" and e.get("fired")][:1]
     for s in samples:
         s.pop("examples", None)
     ncrash = len(st["crash_cases"])
     nun = sum(st["unsafe"].values()) + len(st["unsafe_controls"])
     cov = {
-        "evaluations": st["rt"] + st["rt2"] + st["crash"] + st["crash2"] + nun + st["touch"],
-        "distinct_nontrivial": len(st["live_hashes"]) + len(st["rt2_cases"]) + ncrash + len(st["crash2_cases"]) + len(st["unsafe"]),
+        "evaluations": st["rt"] + st["rt2"] + st["crash"] + st["crash2"] + st["loadfault"] + nun + st["touch"],
+        "distinct_nontrivial": len(st["live_hashes"]) + len(st["rt2_cases"]) + ncrash + len(st["crash2_cases"]) + len(st["load_cases"]) + len(st["unsafe"]),
         "rule": "evaluations = round-trip comparisons (one per request of every history and per decoration round) + second/third "
-                "generation round trips + fault runs (one child process per fault point) + saves after an interrupted save + unsafe-path "
+                "generation round trips + fault runs (one child process per fault point) + saves after an interrupted save + load faults + unsafe-path "
                 "cases + final-path observations. distinct_nontrivial = distinct live-cache "
                 "projections holding at least one container that were round-tripped + distinct (projection after the saving operation, generation, "
                 "operation) second/third generations + distinct (snapshot, leftover kind, mutation, fault point, leftover size) saves after an "
-                "interrupted save + distinct (snapshot, variant, fault kind, system call, "
+                "interrupted save + distinct (snapshot, system call, ordinal, errno) load faults that fired + distinct (snapshot, variant, fault kind, system call, "
                 "ordinal, errno, byte offset) fault points whose fault fired at the planned call + distinct unsafe (target, kind/mode) classes",
         "exhaustive": False,
         "fault_points_exhaustive_per_snapshot": True,
@@ -600,7 +638,8 @@ def run(ctx):
                                         "shorter_after_a_real_leftover": st["crash2_real_shorter"], "largest_excess_bytes": st["crash2_max_excess"],
                                         "leftover_kinds": st["crash2_what"], "mutations": st["crash2_done"], "not_exact": st["crash2_bad"],
                                         "snapshot_bytes_not_available": st["crash2_no_snapshot_api"]},
-        "temp_path_not_a_plain_file_observed_only": st["obs"], "not_persisted_by_design": st["info_diff"], "l2_request_panics_seen": st["op_panics"],
+        "temp_path_not_a_plain_file_observed_only": st["obs"],
+        "load_faults": {"snapshots": st["loadplans"], "runs": st["loadfault"], "fired_by_call_and_errno": st["load_fired"], "outcomes": st["load_outcomes"]}, "not_persisted_by_design": st["info_diff"], "l2_request_panics_seen": st["op_panics"],
         "trace_records_validated": consumed, "traces_validated_against_impl": nchunks,
         "predicates": sorted(PREDS - {"Trace"}),
     }
